@@ -472,6 +472,7 @@ inductive SCmd where
   | snap (r : Nat)
   | typed (r i : Nat) (ft : Ty) (v : Val)          -- assignment of a typed argument
   | refused (r : Nat)                              -- an argument the API must refuse (negative selector)
+  | temp (l : List Impl.SOp)                       -- steps through TEMPORARY views: the views they create are dropped again
 
 def toSOp : Sexp → Option SCmd
   | .list [.atom "child", r, k] => do pure (.steps [.child (← atomNat r) (← atomNat k)] false)
@@ -498,6 +499,11 @@ def toSOp : Sexp → Option SCmd
     pure (.steps [.mutate (← atomNat r) (.set (← atomNat i) (← toVal v))] false)
   | .list [.atom "copy", r] => do pure (.steps [.copy (← atomNat r)] false)
   | .list [.atom "snap", r] => do pure (.snap (← atomNat r))
+  -- `view_r.f_k.value().<op>`: a mutation through the value view of the union at key k of view r; the union view and
+  -- its value view are temporaries (`nv` = number of views held before the step)
+  | .list [.atom "mutv", r, k, nv, op] => do
+    let nv ← atomNat nv
+    pure (.temp [.child (← atomNat r) (← atomNat k), .child nv 0, .mutate (nv + 1) (← toOp op)])
   -- a write into a throw-away COPY of view r (the harness assigns a summary-backed equal-root element there):
   -- nothing held changes
   | .list [.atom "tmpsum", _, _] => pure (.steps [] false)
@@ -549,6 +555,10 @@ def runStore (t : Ty) (v : Val) (ops : List SCmd) (lazy : Bool := false) : Strin
             | some o => (g, snaps ++ [(o.ty, o.backing)], "ok")
             | none => (g, snaps, "err")
           | .refused _ => (g, snaps, "err")
+          | .temp sops =>
+            match sops.foldlM (fun st sop => Impl.stepG H st sop) g with
+            | some g2 => ({ views := g2.views.take g.views.length, sels := g2.sels.take g.sels.length }, snaps, "ok")
+            | none => (g, snaps, "err")
           | .typed r i ft x =>
             -- assignment of a typed argument
             match s[r]? with
@@ -592,6 +602,7 @@ inductive POp where
   | fork                       -- keep another view of the current backing
   | fread (k : Nat)            -- read the whole value through the k-th kept view
   | iterk (k : Nat)            -- the first k items of a plain iteration (a consumer that stops early)
+  | childroot (i : Nat)        -- the child VIEW at key i is obtained and asked for its root (nothing below it is read)
 
 def toPOp : Sexp → Option POp
   | .list [.atom "read"] => some .read
@@ -606,6 +617,7 @@ def toPOp : Sexp → Option POp
   | .list [.atom "sub", i, op] => do pure (.sub (← atomNat i) (← toHOp op))
   | .list [.atom "slice", a, b] => do pure (.slice (← atomNat a) (← atomNat b))
   | .list [.atom "iterk", k] => do pure (.iterk (← atomNat k))
+  | .list [.atom "childroot", i] => do pure (.childroot (← atomNat i))
   | .list [.atom "bytes"] => some .bytes
   | .list [.atom "root"] => some .root
   | s => (toHOp s).map .mut
@@ -648,6 +660,7 @@ def stepPOp (t : Ty) (n : Node) (op : POp) (forks : List Node := []) : Node × S
     -- the iterator is created (the length is read), then the first k items are read in order
     (n, okStr ((viewLen t n).bind fun ln =>
       (Impl.sliceRead H t n 0 (min k ln)).map fun xs => String.intercalate "," (xs.map valStr)))
+  | .childroot i => (n, okStr ((Impl.childOf H t n i).map fun (c : Ty × Node) => hexOf (c.2.root H)))
   | .bytes => (n, okStr ((Impl.serTree H t n).map fun p => hexOf p.1))
   | .root => (n, "ok:" ++ hexOf (n.root H))
   | .mut ho =>
@@ -765,6 +778,7 @@ def runCase (xs : List Sexp) : Option String :=
     -- (the container's fields carry the names of view methods on the code side: positions are what counts)
     pure (runPath (← toTy t) (some (← toVal v)) (← keys.mapM toKey))
   | [.atom "tsize", t] => do pure (runTSize (← toTy t))
+  | [.atom "tnav", t] => do pure (runTSize (← toTy t))   -- navigability probes of a default tree: python-side expectations only
   | [.atom "uop", op, xw, xv, yw, yv] => do
     let op ← toBinOp op
     let x ← toOperand xw xv
